@@ -24,6 +24,8 @@ type jsonStyle struct {
 	// scanner loses the sign for that spelling (known finding); most worlds spell it "-0.0".
 	NegZeroInt  bool
 	UsedNegZero bool
+	// Override renders the given model values with a fixed literal (kind-contradicting documents).
+	Override map[*TVal]string
 }
 
 var wsPieces = []string{" ", "\n", "\t", "\r\n", "  ", " \n "}
@@ -168,6 +170,12 @@ func (s *jsonStyle) floatText(f float64) string {
 }
 
 func (s *jsonStyle) value(sb *strings.Builder, v *TVal) {
+	if s.Override != nil {
+		if lit, ok := s.Override[v]; ok {
+			sb.WriteString(lit)
+			return
+		}
+	}
 	switch v.T.Kind {
 	case tBOOL:
 		if v.B {
